@@ -20,7 +20,7 @@ LEVEL = 'exploration'
 RULE = (
     'atoms Li,S,Li,S,P and Si,S,Si,S,P (floating symbol contains a reference symbol); per-atom step pattern from a table of K patterns (steps in {-0.2,0,0.15} on varying axes), '
     'all K^5 assignments; rigid drift signals from a table (steps in {-0.2,0,0.15} on every axis); selection forms '
-    '{none, fixed "S", ["S"], ["S","P"], floating "Li", ["Li"], floating ["Li","P"]}; species as Species / Element / Species with oxidation state; '
+    '{none, fixed "S", ["S"], ["S","P"], "P", set, tuple, list with repeated names, floating str, [list], [list,"P"], set, frozenset, tuple}; source in position or displacement mode, correction applied again immediately; species as Species / Element / Species with oxidation state; '
     'LATTICES; frames 4 (quick) / 4-5 (thorough); distinct = distinct corrected displacement arrays'
 )
 LEVEL_TEXT = (
